@@ -5,6 +5,7 @@
 // Lines (see BUILDING.md):
 //
 //	case <id> kind=mw alt=less|differs|greater x1=<ints|-> x2=<ints|-> scale=<k> lim=<exact>,<ties> tag=…
+//	case <id> kind=mw alt=… enc=bits x1=<f64 bits,…> x2=<…> lim=… tag=…   (arbitrary finite floats: near-ties family)
 //	info <id> u=<f64 bits> p=<f64 bits> [legacy=<f64 bits>]     raw results (not compared by check.py;
 //	                                                              read by the Lean driver for the 1e-12 tolerance test)
 //	obs  <id> in=kept|mutated res=ok twoU=<int> p=<12 decimals> [legacy=…] | … res=!size | … res=!equal
@@ -75,6 +76,21 @@ func parseInts(s string) []int {
 	return out
 }
 
+func parseBits(s string) []float64 {
+	if s == "-" || s == "" {
+		return nil
+	}
+	var out []float64
+	for _, p := range strings.Split(s, ",") {
+		b, err := strconv.ParseUint(p, 16, 64)
+		if err != nil {
+			panic(err)
+		}
+		out = append(out, math.Float64frombits(b))
+	}
+	return out
+}
+
 func floats(xs []int, scale int) []float64 {
 	out := make([]float64, len(xs))
 	for i, x := range xs {
@@ -110,11 +126,33 @@ func errTag(err error) string {
 
 // runMW runs one alternative of one sample pair under the given limits.
 func runMW(x1, x2 []int, scale, lim, limT int, alt string, tags string) {
+	runMWf(floats(x1, scale), floats(x2, scale),
+		fmt.Sprintf("x1=%s x2=%s scale=%d", ints(x1), ints(x2), scale), lim, limT, alt, tags)
+}
+
+func bitsList(xs []float64) string {
+	if len(xs) == 0 {
+		return "-"
+	}
+	p := make([]string, len(xs))
+	for i, x := range xs {
+		p[i] = hx.F64(x)
+	}
+	return strings.Join(p, ",")
+}
+
+// runMWbits runs a pair given as arbitrary finite float64 values; the case line carries the bit
+// patterns (enc=bits), which the driver orders exactly.
+func runMWbits(f1, f2 []float64, lim, limT int, alt string, tags string) {
+	runMWf(f1, f2, fmt.Sprintf("enc=bits x1=%s x2=%s", bitsList(f1), bitsList(f2)), lim, limT, alt, tags)
+}
+
+func runMWf(in1, in2 []float64, fields string, lim, limT int, alt string, tags string) {
 	id, ok := mine()
 	if !ok {
 		return
 	}
-	hx.Printf("case %d kind=mw alt=%s x1=%s x2=%s scale=%d lim=%d,%d tag=%s\n", id, alt, ints(x1), ints(x2), scale, lim, limT, tags)
+	hx.Printf("case %d kind=mw alt=%s %s lim=%d,%d tag=%s\n", id, alt, fields, lim, limT, tags)
 	defer func() {
 		stats.MannWhitneyExactLimit, stats.MannWhitneyTiesExactLimit = defLim, defLimT
 		if r := recover(); r != nil {
@@ -122,8 +160,8 @@ func runMW(x1, x2 []int, scale, lim, limT int, alt string, tags string) {
 		}
 	}()
 	stats.MannWhitneyExactLimit, stats.MannWhitneyTiesExactLimit = lim, limT
-	f1, f2 := floats(x1, scale), floats(x2, scale)
-	g1, g2 := floats(x1, scale), floats(x2, scale) // pristine copies: the call must not reorder its arguments
+	f1, f2 := append([]float64(nil), in1...), append([]float64(nil), in2...)
+	g1, g2 := in1, in2 // pristine copies: the call must not reorder its arguments
 	res, err := stats.MannWhitneyUTest(f1, f2, altVals[alt])
 	info, line := "", ""
 	if err != nil {
@@ -417,6 +455,13 @@ func main() {
 			}
 			x1s, _ := hx.Field(l, "x1")
 			x2s, _ := hx.Field(l, "x2")
+			if enc, _ := hx.Field(l, "enc"); enc == "bits" {
+				lims, _ := hx.Field(l, "lim")
+				alt, _ := hx.Field(l, "alt")
+				lm := parseInts(lims)
+				runMWbits(parseBits(x1s), parseBits(x2s), lm[0], lm[1], alt, tag)
+				continue
+			}
 			sc, _ := hx.Field(l, "scale")
 			lims, _ := hx.Field(l, "lim")
 			alt, _ := hx.Field(l, "alt")
@@ -534,6 +579,9 @@ func main() {
 		mwAuto(x1, x2, 1<<uint(rng.Intn(4)), lim, limT, "lowlim")
 	}
 
+	// 4b. near-ties: values 1-4 ulps apart (must NOT be grouped), mixed with true ties
+	nearTies(rng)
+
 	// 5. random samples up to and across the real limits, K ∈ {1,2,3,…}
 	nbig := hx.N(8, 60)
 	for i := 0; i < nbig; i++ {
@@ -601,6 +649,109 @@ func main() {
 			continue
 		}
 		runDist(n1, n2, T, tagOf(T, n1, n2, defLim, defLimT, "mid"))
+	}
+}
+
+// ulps moves x by k representable steps (k may be negative).
+func ulps(x float64, k int) float64 {
+	for ; k > 0; k-- {
+		x = math.Nextafter(x, math.Inf(1))
+	}
+	for ; k < 0; k++ {
+		x = math.Nextafter(x, math.Inf(-1))
+	}
+	return x
+}
+
+func tagF(f1, f2 []float64, lim, limT int, extra ...string) string {
+	cnt := map[float64]int{}
+	for _, v := range f1 {
+		cnt[v+0]++ // -0 and +0 are one value
+	}
+	for _, v := range f2 {
+		cnt[v+0]++
+	}
+	var T []int
+	for _, c := range cnt {
+		T = append(T, c)
+	}
+	return tagOf(T, len(f1), len(f2), lim, limT, extra...)
+}
+
+func mwBits3(f1, f2 []float64, lim, limT int, extra ...string) {
+	tags := tagF(f1, f2, lim, limT, extra...)
+	for _, a := range altNames {
+		runMWbits(f1, f2, lim, limT, a, tags)
+	}
+}
+
+// nearTies: samples drawn from clusters of floats a few ulps apart around several magnitudes.
+// Exact float comparison decides what is a tie: 2 and 2+1ulp are different values.
+func nearTies(rng *hx.Rand) {
+	a, b := 0.1, 0.2
+	sum := a + b // 0.30000000000000004 at run time, != 0.3
+	one := 1.0
+	fixed := [][2][]float64{
+		{{ulps(2, 1), 5}, {2, 7}},
+		{{ulps(1, 1)}, {1}},
+		{{1}, {ulps(1, 1)}},
+		{{sum, 1}, {0.3, 0.3}},
+		{{0.3}, {sum}},
+		{{one * (1 + 1e-13), 2}, {1, 2}},
+		{{ulps(1, -1), 1, ulps(1, 1)}, {1, 1}},
+		{{0, ulps(0, 1)}, {math.Copysign(0, -1), ulps(0, -1)}}, // ±0 tie, smallest subnormals do not
+		{{1e300, ulps(1e300, 2)}, {ulps(1e300, 1), 1e300}},
+		{{-2, ulps(-2, 1)}, {ulps(-2, -1), -2, -2}},
+	}
+	for _, c := range fixed {
+		mwBits3(c[0], c[1], defLim, defLimT, "nearties")
+		mwBits3(c[1], c[0], defLim, defLimT, "nearties")
+	}
+	bases := []float64{1, 2, 0.3, sum, 3.5e10, 1e-300, 1e300, -2, -0.7, 5e-324, 0, 1 << 52, 1023.999}
+	n := hx.N(500, 6000)
+	for i := 0; i < n; i++ {
+		// a few clusters; inside a cluster the offsets 0 (true tie), ±1, ±2, ±4 ulps, or a relative 1e-13
+		nc := 1 + rng.Intn(3)
+		var cl []float64
+		for j := 0; j < nc; j++ {
+			cl = append(cl, bases[rng.Intn(len(bases))])
+		}
+		draw := func() float64 {
+			v := cl[rng.Intn(len(cl))]
+			switch rng.Intn(8) {
+			case 0, 1, 2:
+				return v
+			case 3:
+				return ulps(v, 1)
+			case 4:
+				return ulps(v, -1)
+			case 5:
+				return ulps(v, 2-4*rng.Intn(2))
+			case 6:
+				return ulps(v, 4-8*rng.Intn(2))
+			}
+			return v * (1 + 1e-13)
+		}
+		n1, n2 := 1+rng.Intn(6), 1+rng.Intn(6)
+		lim, limT := defLim, defLimT
+		extra := []string{"nearties"}
+		switch {
+		case i%25 == 0: // large: around the tied limit, both branches
+			n1, n2 = defLimT-2+rng.Intn(5), defLimT-2+rng.Intn(5)
+			extra = append(extra, "big")
+		case i%5 == 0: // lowered limits: the grouping also decides the branch and the tie correction
+			lim, limT = 2+rng.Intn(5), 1+rng.Intn(4)
+			n1, n2 = 1+rng.Intn(lim+2), 1+rng.Intn(lim+2)
+			extra = append(extra, "lowlim")
+		}
+		f1, f2 := make([]float64, n1), make([]float64, n2)
+		for j := range f1 {
+			f1[j] = draw()
+		}
+		for j := range f2 {
+			f2[j] = draw()
+		}
+		mwBits3(f1, f2, lim, limT, extra...)
 	}
 }
 
